@@ -124,3 +124,17 @@ def array_args_unchanged(kw, snap):
     import numpy as np
 
     return all(np.array_equal(kw[k], v) and kw[k].dtype == dt for k, (v, dt) in snap.items())
+
+
+def permuted_series(a, salt=0):
+    """pandas Series holding `a` in the same POSITIONAL order but with an integer index that is a non-trivial permutation of 0..n-1
+    (what a column of a sorted / shuffled DataFrame looks like): label-based access differs from positional access."""
+    import numpy as np
+    import pandas as pd
+
+    a = np.asarray(a)
+    n = a.size
+    idx = np.arange(n)[::-1].copy()
+    if n > 2:
+        idx = np.roll(idx, 1 + salt % (n - 1))
+    return pd.Series(a.ravel(), index=idx)
